@@ -21,6 +21,7 @@ def sched (cap d own ls : String) : String :=
   | _, _, _, _ => "bad-op"
 
 /-- `sched <cap> <drainFirst> [<ownCtx>] <labels>`;
+`ids <keyIsWire> <counterBits> <n>` (the reply to the n-th query of a connection: found / lost);
 `body <readsToEOF> <qid: 4 hex digits> <piece>,<piece>,...` (DoH: the response body as the pieces `Read` returns) -/
 def handle : List String → String
   | ["sched", cap, d, ls] => sched cap d "1" ls
@@ -31,6 +32,10 @@ def handle : List String → String
       match Doh.exchange toEOF qid body with
       | .reply m => "reply:" ++ Hex.encode m
       | .tooSmall => "error:too-small"
+    | _, _, _ => "bad-op"
+  | ["ids", k, bits, ctr] =>
+    match Hex.bool? k, bits.toNat?, ctr.toNat? with
+    | some k, some bits, some ctr => if Ids.finds k bits ctr then "found" else "lost"
     | _, _, _ => "bad-op"
   | _ => "bad-op"
 
